@@ -28,6 +28,10 @@ def parseStackL : Nat → List Char → Option (Stack × List Char)
       | _ => none
     else if name == "fdet" || name == "fnon" then
       (arg1 rest).map fun (u, r) => (.formatted (name == "fdet") u, r)
+    -- formattedstore with the EDV encrypted formatter (deterministic / random document ids): the formatter is a parameter
+    -- of the wrapper model, the key-value behaviour is the same
+    else if name == "edet" || name == "enon" then
+      (arg1 rest).map fun (u, r) => (.formatted (name == "edet") u, r)
     else if name.startsWith "batched" then
       let a := String.ofList (name.toList.drop 7)
       let n : Option Int :=
